@@ -10,7 +10,7 @@
 From Coq Require Import String.
 From Coq Require Import List NArith Bool Arith Lia.
 From SV Require Import Bytes Base64 Client Transport Server Session WriterFacts StatusFacts DecodeFacts DataFacts
-  SessionFacts SessionData RenameAbs RenameData Spec.
+  SessionFacts SessionData TlsInv CapFacts RenameAbs RenameData Spec.
 Import ListNotations.
 Local Open Scope nat_scope.
 
@@ -22,6 +22,7 @@ Definition spec_op_alt (ver : bool) (o : op) (s : sstate) : option (value * ssta
   | OListscripts => Some (VListing (fst (listing_of s)) (snd (listing_of s)), s)
   | OGetscript n => match assoc_get n (s_store s) with Some c => Some (VBytes (norm c), s) | None => Some (VNone, s) end
   | OLogout => Some (VNone, s)
+  | OCapability => Some (VBytes (capabilities_bytes s), s)
   | _ =>
       match op_command o with
       | Some (verb, args) =>
@@ -194,6 +195,66 @@ Proof.
   intros o verb args H Hok. destruct o; cbn in H; try discriminate; inversion H; subst; cbn; auto.
 Qed.
 
+(* what no step of the specification touches: the configuration and the TLS flag *)
+Lemma run_cmd_keeps : forall f verb args s a s',
+  run_cmd f verb args s = CAns a s' -> s_cfg s' = s_cfg s /\ Server.s_tls s' = Server.s_tls s.
+Proof.
+  intros f verb args s a s' H. unfold run_cmd in H. destruct f; try discriminate.
+  destruct (exec_command verb args s) as [[a0 s0]|] eqn:E; [|discriminate]. inversion H; subst.
+  split; [apply (exec_preserves _ _ _ _ _ E)|apply (exec_tls _ _ _ _ _ E)].
+Qed.
+
+Lemma rename_del_keeps : forall f s old,
+  s_cfg (snd (rename_del f s old)) = s_cfg s /\ Server.s_tls (snd (rename_del f s old)) = Server.s_tls s.
+Proof.
+  intros f s old. unfold rename_del.
+  destruct (run_cmd f (bs "DELETESCRIPT") [PStr old] s) as [| |a s'] eqn:E; cbn [snd]; auto.
+  destruct a; cbn [snd]; auto. apply (run_cmd_keeps _ _ _ _ _ _ E).
+Qed.
+
+Lemma rename_abs_keeps : forall plan s old new,
+  s_cfg (snd (rename_abs plan s old new)) = s_cfg s /\ Server.s_tls (snd (rename_abs plan s old new)) = Server.s_tls s.
+Proof.
+  intros plan s old new. unfold rename_abs.
+  destruct (run_cmd (plan 0) (bs "LISTSCRIPTS") [] s) as [| |a0 s0]; cbn [snd]; auto.
+  destruct a0; cbn [snd]; auto.
+  destruct (listing_of s) as [active others].
+  destruct (negb (opt_beq (Some old) active) && negb (mem old others)); cbn [snd]; auto.
+  destruct (opt_beq (Some new) active || mem new others); cbn [snd]; auto.
+  destruct (run_cmd (plan 1) (bs "GETSCRIPT") [PStr old] s) as [| |a1 s1']; cbn [snd]; auto.
+  destruct a1; cbn [snd]; auto.
+  destruct (run_cmd (plan 2) (bs "PUTSCRIPT") [PStr new; PStr (norm content)] s) as [| |a2 s2] eqn:E2; cbn [snd]; auto.
+  destruct a2; cbn [snd]; auto.
+  destruct (run_cmd_keeps _ _ _ _ _ _ E2) as (K1 & K2).
+  destruct (opt_beq active (Some old)).
+  - destruct (run_cmd (plan 3) (bs "SETACTIVE") [PStr new] s2) as [| |a3 s3] eqn:E3; cbn [snd]; auto.
+    destruct a3; cbn [snd]; auto.
+    destruct (run_cmd_keeps _ _ _ _ _ _ E3) as (K3 & K4).
+    destruct (rename_del_keeps (plan 4) s3 old) as (K5 & K6). split; congruence.
+  - destruct (rename_del_keeps (plan 3) s2 old) as (K5 & K6). split; congruence.
+Qed.
+
+Lemma spec_op_keeps : forall ver o s v s',
+  spec_op ver o s = Some (v, s') -> s_cfg s' = s_cfg s /\ Server.s_tls s' = Server.s_tls s.
+Proof.
+  intros ver o s v s' H. rewrite spec_op_eq in H.
+  assert (Hex : forall verb args,
+            match exec_command verb args s with Some (a, s2) => Some (VBool (answer_bool a), s2) | None => None end = Some (v, s') ->
+            s_cfg s' = s_cfg s /\ Server.s_tls s' = Server.s_tls s).
+  { intros verb args E. destruct (exec_command verb args s) as [[a s2]|] eqn:Ex; [|discriminate]. inversion E; subst.
+    split; [apply (exec_preserves _ _ _ _ _ Ex)|apply (exec_tls _ _ _ _ _ Ex)]. }
+  destruct o; cbn [spec_op_alt op_command needs_version negb orb] in H; try discriminate;
+    try (inversion H; subst; auto; fail); try (apply (Hex _ _ H)).
+  - destruct (assoc_get name (s_store s)); inversion H; subst; auto.
+  - destruct ver; [apply (Hex _ _ H)|]. cbv zeta in H.
+    destruct (of_aresult (fst (rename_abs (fun _ => FNone) s oldname newname))); [|discriminate]. inversion H; subst.
+    apply rename_abs_keeps.
+  - destruct ver; [apply (Hex _ _ H)|discriminate].
+Qed.
+
+Lemma caps_congr : forall s t, s_cfg t = s_cfg s -> Server.s_tls t = Server.s_tls s -> capabilities_bytes t = capabilities_bytes s.
+Proof. intros s t A B. unfold capabilities_bytes. rewrite A, B. reflexivity. Qed.
+
 Lemma conforming_of_live : forall s s3, conforming s -> live s3 -> s_faults s3 = s_faults s -> conforming s3.
 Proof. intros s s3 (_ & _ & C3) (L1 & L2) Hf. unfold conforming. repeat split; congruence. Qed.
 
@@ -221,16 +282,30 @@ Proof.
   split; [split; [reflexivity|exact (conforming_of_live _ _ Hc L3 F3)]|]. repeat split; assumption.
 Qed.
 
+Lemma capability_fuel : forall F st (w : sworld sstate) (k : kont),
+  ok_world w -> sasl_safe (s_peer sstate w) -> 6 <= F ->
+  exists w', runS (capability F st k) w = runS (k st (VBytes (capabilities_bytes (s_peer sstate w)))) w' /\
+             ok_world w' /\ same_data (s_peer sstate w) (s_peer sstate w').
+Proof.
+  intros F st w k (Hs & Hc) Hsafe HF. destruct (conforming_live _ Hc) as (Hl & Hf).
+  assert (E : F = S (5 + (F - 6))) by lia. rewrite E.
+  destruct (capability_k_gen (F - 6) st w k Hs Hl Hf Hsafe) as (s3 & R & L3 & F3 & _ & S1 & S2 & S3).
+  eexists. split; [exact R|].
+  split; [split; [reflexivity|exact (conforming_of_live _ _ Hc L3 F3)]|]. repeat split; assumption.
+Qed.
+
 Theorem spec_op_runs : forall F ver o st (w : sworld sstate) s v s',
   c_auth st = true -> has_cap (bs "VERSION") st = ver -> ok_world w -> same_data s (s_peer sstate w) ->
-  names_ok s -> op_ok o -> length (s_store s) < F -> 3 <= F ->
+  Server.s_tls s = Server.s_tls (s_peer sstate w) -> sasl_safe s ->
+  names_ok s -> op_ok o -> length (s_store s) < F -> 6 <= F ->
   spec_op ver o s = Some (v, s') ->
   exists st1 w1,
     runS (run_op F o st) w = (ODone v st1, w1) /\
     c_auth st1 = true /\ c_caps st1 = c_caps st /\
     ok_world w1 /\ same_data s' (s_peer sstate w1) /\ names_ok s' /\ length (s_store s') <= S (length (s_store s)).
 Proof.
-  intros F ver o st w s v s' Ha Hver Hw D Hn Hok HF HF3 Hspec. rewrite spec_op_eq in Hspec.
+  intros F ver o st w s v s' Ha Hver Hw D Htls Hsafe Hn Hok HF HF6 Hspec. rewrite spec_op_eq in Hspec.
+  assert (HF3 : 3 <= F) by lia.
   assert (Hsimple : forall verb args, op_command o = Some (verb, args) ->
             (needs_version o = true -> has_cap (bs "VERSION") st = true) ->
             match exec_command verb (map decode_arg args) s with
@@ -254,6 +329,15 @@ Proof.
     inversion Hspec; subst v s'. clear Hspec. cbn [run_op].
     destruct (logout_fuel F st w finish Hw ltac:(lia)) as (w1 & R & Hw1 & D1).
     rewrite R. exists st, w1. split; [reflexivity|]. split; [exact Ha|]. split; [reflexivity|]. split; [exact Hw1|].
+    split; [exact (same_data_trans _ _ _ D D1)|]. split; [exact Hn|lia].
+  - (* CAPABILITY *)
+    inversion Hspec; subst v s'. clear Hspec. cbn [run_op].
+    assert (Hsafe' : sasl_safe (s_peer sstate w)).
+    { destruct D as (_ & _ & X). unfold sasl_safe in *. rewrite X. exact Hsafe. }
+    destruct (capability_fuel F st w finish Hw Hsafe' HF6) as (w1 & R & Hw1 & D1).
+    rewrite R. exists st, w1.
+    rewrite (caps_congr s (s_peer sstate w) ltac:(destruct D as (_ & _ & X); exact X) ltac:(symmetry; exact Htls)).
+    split; [reflexivity|]. split; [exact Ha|]. split; [reflexivity|]. split; [exact Hw1|].
     split; [exact (same_data_trans _ _ _ D D1)|]. split; [exact Hn|lia].
   - (* HAVESPACE *) cbn [op_command needs_version negb orb] in Hspec. eapply Hsimple; [reflexivity|discriminate|exact Hspec].
   - (* LISTSCRIPTS *)
@@ -296,9 +380,34 @@ Qed.
 
 (* ------------------------------------------------------------------ whole sessions *)
 
+(* the same with what the session carries along: the TLS flag and the SASL lists never change *)
+Theorem spec_op_runs_inv : forall F ver o st (w : sworld sstate) s v s',
+  c_auth st = true -> has_cap (bs "VERSION") st = ver -> ok_world w -> same_data s (s_peer sstate w) ->
+  Server.s_tls s = Server.s_tls (s_peer sstate w) -> sasl_safe s ->
+  names_ok s -> op_ok o -> length (s_store s) < F -> 6 <= F ->
+  spec_op ver o s = Some (v, s') ->
+  exists st1 w1,
+    runS (run_op F o st) w = (ODone v st1, w1) /\
+    c_auth st1 = true /\ c_caps st1 = c_caps st /\
+    ok_world w1 /\ same_data s' (s_peer sstate w1) /\ names_ok s' /\ length (s_store s') <= S (length (s_store s)) /\
+    Server.s_tls s' = Server.s_tls (s_peer sstate w1) /\ sasl_safe s'.
+Proof.
+  intros F ver o st w s v s' Ha Hver Hw D Htls Hsafe Hn Hok HF HF6 Hspec.
+  destruct (spec_op_runs F ver o st w s v s' Ha Hver Hw D Htls Hsafe Hn Hok HF HF6 Hspec)
+    as (st1 & w1 & R & A1 & C1 & Hw1 & D1 & N1 & L1).
+  exists st1, w1. repeat (split; [assumption|]).
+  destruct (spec_op_keeps ver o s v s' Hspec) as (K1 & K2).
+  split.
+  - pose proof (run_op_tls F o st w) as T. rewrite R in T. cbn [snd] in T.
+    destruct o; try (rewrite K2, Htls; symmetry; exact T).
+    rewrite spec_op_eq in Hspec. discriminate Hspec.
+  - unfold sasl_safe in *. rewrite K1. exact Hsafe.
+Qed.
+
 Theorem session_refines_spec : forall ver ops F st (w : sworld sstate) s vals s',
   c_auth st = true -> has_cap (bs "VERSION") st = ver -> ok_world w -> same_data s (s_peer sstate w) ->
-  names_ok s -> Forall op_ok ops -> length (s_store s) + length ops < F -> 3 <= F ->
+  Server.s_tls s = Server.s_tls (s_peer sstate w) -> sasl_safe s ->
+  names_ok s -> Forall op_ok ops -> length (s_store s) + length ops < F -> 6 <= F ->
   spec_run ver ops s = Some (vals, s') ->
   exists outs st' w',
     run_ops_s sstate srv_react srv_connect srv_tls F ops st w = (outs, st', w') /\
@@ -306,15 +415,15 @@ Theorem session_refines_spec : forall ver ops F st (w : sworld sstate) s vals s'
     ok_world w' /\ same_data s' (s_peer sstate w') /\ names_ok s' /\
     c_auth st' = true /\ c_caps st' = c_caps st.
 Proof.
-  intros ver ops. induction ops as [|o t IH]; intros F st w s vals s' Ha Hver Hw D Hn Hok HF HF3 Hrun.
+  intros ver ops. induction ops as [|o t IH]; intros F st w s vals s' Ha Hver Hw D Htls Hsafe Hn Hok HF HF6 Hrun.
   - cbn in Hrun. inversion Hrun; subst. exists [], st, w. cbn [run_ops_s map]. repeat (split; [first [reflexivity|assumption]|]). reflexivity.
   - cbn [spec_run] in Hrun.
     destruct (spec_op ver o s) as [[v s1]|] eqn:E1; [|discriminate].
     destruct (spec_run ver t s1) as [[vs s2]|] eqn:E2; [|discriminate]. inversion Hrun; subst vals s'. clear Hrun.
     apply Forall_cons_iff in Hok. destruct Hok as (Hok1 & Hokt). cbn [length] in HF.
-    destruct (spec_op_runs F ver o st w s v s1 Ha Hver Hw D Hn Hok1 ltac:(lia) HF3 E1)
-      as (st1 & w1 & R1 & Ha1 & Hc1 & Hw1 & D1 & N1 & L1).
-    destruct (IH F st1 w1 s1 vs s2 Ha1 ltac:(rewrite (has_cap_caps _ _ _ Hc1); exact Hver) Hw1 D1 N1 Hokt ltac:(lia) HF3 E2)
+    destruct (spec_op_runs_inv F ver o st w s v s1 Ha Hver Hw D Htls Hsafe Hn Hok1 ltac:(lia) HF6 E1)
+      as (st1 & w1 & R1 & Ha1 & Hc1 & Hw1 & D1 & N1 & L1 & T1 & Sf1).
+    destruct (IH F st1 w1 s1 vs s2 Ha1 ltac:(rewrite (has_cap_caps _ _ _ Hc1); exact Hver) Hw1 D1 T1 Sf1 N1 Hokt ltac:(lia) HF6 E2)
       as (outs & st' & w' & Rr & Hv & Hw' & D' & N' & Ha' & Hc').
     exists (ODone v st1 :: outs), st', w'. cbn [run_ops_s]. rewrite R1. cbn [outcome_state]. rewrite Rr.
     split; [reflexivity|]. split; [cbn [map outcome_value]; rewrite Hv; reflexivity|].
@@ -334,5 +443,18 @@ Example session_rename_example :
            VBool true; VBool true; VListing (Some (bs "c")) []; VBytes (bs "stop;"); VBool false], s') /\
     s_store s' = [(bs "c", bs "stop;")] /\ s_active s' = Some (bs "c").
 Proof. eexists. vm_compute. repeat split. Qed.
+
+Example session_capability_example :
+  spec_run false [OCapability; OLogout] demo_server = Some ([VBytes (capabilities_bytes demo_server); VNone], demo_server) /\
+  sasl_safe demo_server /\
+  capabilities_bytes demo_server =
+  bs ("""IMPLEMENTATION"" ""reference model""" ++ String (Ascii.ascii_of_nat 13) (String (Ascii.ascii_of_nat 10) "")
+      ++ """SASL"" ""PLAIN""" ++ String (Ascii.ascii_of_nat 13) (String (Ascii.ascii_of_nat 10) "")
+      ++ """SIEVE"" ""fileinto vacation""" ++ String (Ascii.ascii_of_nat 13) (String (Ascii.ascii_of_nat 10) "")
+      ++ """VERSION"" ""1.0""" ++ String (Ascii.ascii_of_nat 13) (String (Ascii.ascii_of_nat 10) "")).
+Proof.
+  split; [reflexivity|]. split; [|vm_compute; reflexivity].
+  split; vm_compute; repeat constructor; discriminate.
+Qed.
 
 Print Assumptions session_refines_spec.
